@@ -80,6 +80,85 @@ KwNames == << "x", "key", "reverse", "sep", "base", "default", "start", "step", 
               "location", "format", "a", "" >>
 
 (***************************************************************************)
+(* 1b. Operators.  Indexing, slicing, the binary / unary / augmented       *)
+(* operators, attribute access and the assignment forms are syntax, not    *)
+(* built-in calls; they are explored as PSEUDO-CALLABLES over the same     *)
+(* pool: a form is the text of an expression or statement over the         *)
+(* variables x, y, z, w; the harness compiles `def f(x, y, z, w)` around   *)
+(* it once and calls it with freshly materialised operands.                *)
+(*                                                                         *)
+(* Extra operand codes: small ints (i2 im2 i5 im5 i100 im100), receivers   *)
+(* of length 3 and 0 for every sequence type (s_abc b_abc t_123 r3 r0),    *)
+(* % format strings (s_pct "%s %d %r %x %c %%", s_pct1 "%d",               *)
+(* s_pctmap "%(a)s %(b)r").  SYMBOLIC index codes are resolved against the *)
+(* length n of the first operand (3 if it has none): ix_len = n,           *)
+(* ix_lenm1 = n-1, ix_mlen = -n, ix_mlen1 = -n-1, ix_mlen2 = -n-2.         *)
+(***************************************************************************)
+OpsExtra == << "i2", "im2", "i5", "im5", "i100", "im100", "s_abc", "b_abc", "t_123", "r0", "r3",
+               "s_pct", "s_pct1", "s_pctmap" >>
+IxSym    == << "ix_len", "ix_lenm1", "ix_mlen", "ix_mlen1", "ix_mlen2" >>
+Codes    == Pool \o OpsExtra \o IxSym                 \* every operand code; cases carry indices into it
+CodeIx(c) == CHOOSE i \in 1..Len(Codes) : Codes[i] = c
+OperandCodes == Pool \o OpsExtra                      \* what x, y, z may be (no symbolic index)
+
+\* index codes: None, 0, +-1, +-2, len, len-1, -len, -len-1, -len-2, +-5, +-100, +-2^31, +-2^62, 2^64
+IxCodes == << "none", "i0", "i1", "im1", "i2", "im2", "ix_len", "ix_lenm1", "ix_mlen", "ix_mlen1", "ix_mlen2",
+              "i5", "im5", "i100", "im100", "i2p31", "im2p31", "i2p62", "im2p62", "i2p64" >>
+\* operands that are no index at all
+IxJunk == << "f1p5", "s_a", "true", "h_bad" >>
+\* quick tier: receivers of length 0 and 3 of every sequence type, a dict and None
+RecvSmall == << "s_empty", "s_abc", "b_empty", "b_abc", "l_empty", "l_123", "t_empty", "t_123", "r0", "r3", "d_ab", "none" >>
+\* receivers of the assignment forms: mutable, frozen, self-containing, and values that reject assignment
+RecvMut == << "l_empty", "l_123", "l_frozen", "l_self", "d_empty", "d_ab", "d_frozen", "d_self", "t_12", "s_a", "strct", "none" >>
+FmtStrings == << "s_fmt", "s_pct", "s_pct1", "s_pctmap", "s_a", "b_ab" >>
+
+BinOpToks == << "+", "-", "*", "/", "//", "%", "&", "|", "^", "<<", ">>", "==", "!=", "<", "<=", ">", ">=",
+                "in", "not in", "and", "or" >>
+AugOpToks == << "+=", "-=", "*=", "/=", "//=", "%=", "&=", "|=", "^=", "<<=", ">>=" >>
+UnOpToks  == << "+", "-", "~", "not " >>
+AttrToks  == << "append", "keys", "add", "a", "b", "f", "year", "hours", "elems", "missing" >>
+
+\* a form: name, the text over x y z w, statement or expression, and the tag of its operand domain
+OpForm(name, src, stmt, dom) == [name |-> name, src |-> src, stmt |-> stmt, dom |-> dom]
+OpForms ==
+  << OpForm("index", "x[y]", FALSE, "index"),
+     OpForm("slice2", "x[y:z]", FALSE, "slice2"),
+     OpForm("slice3", "x[y:z:w]", FALSE, "slice3"),
+     OpForm("setindex", "x[y] = z", TRUE, "set3"),
+     OpForm("augindex", "x[y] += z", TRUE, "set3"),
+     OpForm("setfield", "x.a = y", TRUE, "setf"),
+     OpForm("augfield", "x.a += y", TRUE, "setf"),
+     OpForm("fmt", "x % y", FALSE, "fmt"),
+     OpForm("call", "x(y)", FALSE, "pair"),
+     OpForm("callstar", "len(*x)", FALSE, "one"),
+     OpForm("callkw", "dict(**x)", FALSE, "one"),
+     OpForm("unpack", "y, z = x", TRUE, "one"),
+     OpForm("for", "for y in x: pass", TRUE, "one"),
+     OpForm("comp", "[y for y in x]", FALSE, "one"),
+     OpForm("cond", "y if x else z", FALSE, "one") >>
+  \o [i \in 1..Len(BinOpToks) |-> OpForm("bin:" \o BinOpToks[i], "x " \o BinOpToks[i] \o " y", FALSE, "pair")]
+  \o [i \in 1..Len(AugOpToks) |-> OpForm("aug:" \o AugOpToks[i], "x " \o AugOpToks[i] \o " y", TRUE, "pair")]
+  \o [i \in 1..Len(UnOpToks)  |-> OpForm("un:" \o UnOpToks[i], UnOpToks[i] \o "x", FALSE, "one")]
+  \o [i \in 1..Len(AttrToks)  |-> OpForm("attr:" \o AttrToks[i], "x." \o AttrToks[i], FALSE, "one")]
+
+\* the kind of an operand code (used in the signatures of findings)
+KindOf(c) ==
+  CASE c \in {"none"} -> "None" [] c \in {"true", "false"} -> "bool"
+    [] c \in {"i0", "i1", "im1", "i2", "im2", "i5", "im5", "i100", "im100", "i2p31", "im2p31", "i2p62", "im2p62", "i2p63m1",
+              "i2p63", "im2p63", "i2p64", "im2p64", "i2p200"} -> "int"
+    [] c \in {"f0", "fm0", "f1p5", "finf", "fminf", "fnan"} -> "float"
+    [] c \in {"s_empty", "s_a", "s12", "s40", "s_bad", "s_fmt", "s_abc", "s_pct", "s_pct1", "s_pctmap"} -> "string"
+    [] c \in {"b_empty", "b_ab", "b_abc"} -> "bytes"
+    [] c \in {"l_empty", "l_123", "l_frozen", "l_self", "l_nest"} -> "list"
+    [] c \in {"t_empty", "t_12", "t_123"} -> "tuple"
+    [] c \in {"d_empty", "d_ab", "d_frozen", "d_self"} -> "dict"
+    [] c \in {"set_empty", "set_12", "set_frozen"} -> "set"
+    [] c \in {"r10", "r_huge", "r0", "r3"} -> "range"
+    [] c \in {"lam", "blt"} -> "function" [] c = "strct" -> "struct"
+    [] c \in {"h_iter", "h_bad"} -> "host" [] c \in {"tm", "dur"} -> "time"
+    [] OTHER -> "index"
+
+(***************************************************************************)
 (* 2. Value graphs: node kinds, how each kind gets its out-edges, and the  *)
 (* operations applied to every node of every graph.                        *)
 (*   list, dict, closure : created empty; edges are added LATER            *)
